@@ -216,7 +216,9 @@ def rule_c12_recording(prog: Program, col: Collector) -> None:
               construct="fresh-env", necessity="distinct repetitions must not share an environment object")
     # both branches use eval_one
     used = [e for e in eft.calls() if e.name in ("starmap", "map", "imap") and e.args and e.args[0] == ("global", P + "evaluation.eval_one")]
-    col.check(len(used) >= 2 and all(e.args[1] == tasks for e in used if len(e.args) > 1), eref.where(), eref.short,
+    # one site that serves both cases (a pool object chosen beforehand) or one site per branch: every site maps eval_one over the task list
+    branchy = any(f[0] == "if" for e in used for f in e.ctx)
+    col.check(len(used) >= (2 if branchy else 1) and all(e.args[1] == tasks for e in used if len(e.args) > 1), eref.where(), eref.short,
               "the sequential and the pooled branch both map eval_one over the same task list", construct="both-branches",
               necessity="the result must not depend on which branch runs")
     rv = [e for e in eft.of_kind("return")]
